@@ -31,7 +31,14 @@ SEEDS = {'quick': ['1', 'random'], 'thorough': ['0', '1', '2', '3', '4', '5', '6
 
 def base_spec(task):
     tree, scheme, ivar, k = task[:4]
-    return add_scheme_S(flatten(tree, scheme, ivar), send_subset=True, counter=True)
+    spec = add_scheme_S(flatten(tree, scheme, ivar), send_subset=True, counter=True)
+    # twins: for every fourth transition a second one with the same source, event, guard and target but a
+    # higher priority and another action (which of the two is declared first must not matter)
+    for t in list(spec['transitions']):
+        if t['tid'] % 4 == 0:
+            tid = len(spec['transitions'])
+            spec['transitions'].append(dict(t, tid=tid, priority=1, action="P('ac', %d); n = n + 100" % tid))
+    return spec
 
 
 def variants(spec, lite=False):
